@@ -470,3 +470,27 @@ def predicate_scenarios(prog: Program, fi: FuncInfo, edges, depth: int = 0) -> l
                         alts = [[(a, truth, fi, b)] + o for o in opened]
             scenarios = [s + alt for s in scenarios for alt in alts][:64]
     return scenarios
+
+
+def expand_flag_edges(flow, edges, depth: int = 0) -> set:
+    """Branch edges implied by the given ones when a test is a boolean *flag* known to be true: `ok = False ... if A: if B:
+    ok = <cond> ... if ok: S` - S runs only where A and B were true (the edges common to every place the flag can have
+    become true are added)."""
+    from ..cfg import must_edges as _must
+
+    out = set(edges)
+    if depth > 2:
+        return out
+    for b, lab in list(edges):
+        if b.kind != "test" or lab != "T" or not isinstance(b.ast, ast.Name):
+            continue
+        ds = flow.reaching(b, b.ast.id)
+        live = [d for d in ds if not (d.kind == "assign" and isinstance(d.value, ast.Constant) and d.value.value in (False, None))]
+        if not ds or not live or len(live) == len(ds) or any(d.kind != "assign" for d in ds):
+            continue
+        common = None
+        for d in live:
+            es = expand_flag_edges(flow, _must(flow.cfg, flow.cfg.entry, d.node) or set(), depth + 1)
+            common = es if common is None else (common & es)
+        out |= common or set()
+    return out
